@@ -56,6 +56,46 @@ type dynTyper struct {
 	P        *prog.Program
 	maxDepth int
 	active   map[*ssa.Function]int
+	// closed world for unexported functions that are only ever called directly: their call sites
+	sites     map[*ssa.Function][]*ssa.Call
+	escaped   map[*ssa.Function]bool
+	paramBusy map[*ssa.Parameter]bool
+}
+
+// callSitesOf: every call of fn in the module, or nil when fn can be reached in another way (exported, a method
+// reachable through an interface, used as a function value).
+func (d *dynTyper) callSitesOf(fn *ssa.Function) []*ssa.Call {
+	if d.sites == nil {
+		d.sites = map[*ssa.Function][]*ssa.Call{}
+		d.escaped = map[*ssa.Function]bool{}
+		for _, f := range d.P.Funcs {
+			for _, b := range f.Blocks {
+				for _, in := range b.Instrs {
+					var callee *ssa.Function
+					if call, ok := in.(*ssa.Call); ok {
+						callee = call.Call.StaticCallee()
+						if callee != nil {
+							d.sites[callee] = append(d.sites[callee], call)
+						}
+					}
+					for _, op := range in.Operands(nil) {
+						if g, ok := (*op).(*ssa.Function); ok {
+							if ci, isCI := in.(ssa.CallInstruction); isCI && ci.Common().Value == ssa.Value(g) {
+								if _, isCall := in.(*ssa.Call); isCall {
+									continue
+								}
+							}
+							d.escaped[g] = true // go / defer / function value
+						}
+					}
+				}
+			}
+		}
+	}
+	if fn.Parent() != nil || fn.Signature.Recv() != nil || isExported(fn.Name()) || d.escaped[fn] || !d.P.InModule(fn) {
+		return nil
+	}
+	return d.sites[fn]
 }
 
 func newDynTyper(p *prog.Program) *dynTyper {
@@ -132,6 +172,33 @@ func (d *dynTyper) of(v ssa.Value, env *dynEnv, depth int, seen map[ssa.Value]bo
 		if env != nil {
 			if ts, ok := env.params[x]; ok {
 				return ts
+			}
+		}
+		// an unexported function that is only called directly: what its callers hand in
+		if fn := x.Parent(); fn != nil && depth > 0 && types.IsInterface(x.Type()) {
+			if d.paramBusy == nil {
+				d.paramBusy = map[*ssa.Parameter]bool{}
+			}
+			if sites := d.callSitesOf(fn); len(sites) > 0 && !d.paramBusy[x] {
+				idx := -1
+				for i, p := range fn.Params {
+					if p == x {
+						idx = i
+					}
+				}
+				if idx >= 0 {
+					d.paramBusy[x] = true
+					out := TypeSet{}
+					for _, call := range sites {
+						if idx >= len(call.Call.Args) {
+							out = top()
+							break
+						}
+						out = out.join(d.At(call.Call.Args[idx], call.Block(), nil, depth-1))
+					}
+					delete(d.paramBusy, x)
+					return out
+				}
 			}
 		}
 		return top()
